@@ -128,6 +128,13 @@ def run (ctx):
       for t, v, s_, k in q.stores_in(f.node):
         if norm(t) == 'self.send_buf' and f is not isend:
           okw = (f is cons) or (f.name == '__init__' and isinstance(v, ast.Constant) and v.value == b'')
+          if not okw and isinstance(v, ast.Subscript) and norm(v.value) == 'self.send_buf' and isinstance(v.slice, ast.Slice) and v.slice.upper is None and v.slice.step is None \
+             and isinstance(v.slice.lower, ast.Name):
+            # a head cut written in place: accepted when the count can only be what the socket reported for this very buffer
+            gf = q.cfg_of(f); sn = q.enclosing_stmt_node(gf, s_)
+            pv = q.provenance(gf, sn, v.slice.lower.id) if sn is not None else []
+            okw = bool(pv) and all(kind == 'assign' and isinstance(val, ast.Call) and call_name(val) == 'send' and val.args and norm(val.args[0]) == 'self.send_buf'
+                                   and norm(val.func.value).endswith('socket') for d_, kind, val in pv)
           ctx.ob('R-OWN', f, "send buffer written only by send (tail) and consume (head)", okw, f.name if okw else "%s rewrites the send buffer: `%s`" % (f.qual, norm(s_)), (iom, s_), 'D2')
   # send_fast: remaining data goes through IOWorker.send (tail) - and only the remainder
   g = q.cfg_of(sfast)
